@@ -354,6 +354,9 @@ CO_ERR COSdoDownloadExpedited(CO_SDO *srv)
             srv->Obj = 0;
             result   = CO_ERR_NONE;
         }
+    } else if (size > 4) {
+        /* expedited data can't fill an object larger than 4 byte */
+        COSdoAbort(srv, CO_SDO_ERR_LEN_SMALL);
     }
     return (result);
 }
